@@ -16,7 +16,11 @@
    * whatever can write or move out through a borrow is only obtainable from `&mut self` or by
      consuming another handle;
    * whatever borrows has a receiver or a borrowed argument to borrow from;
-   * a named lifetime in a return type is bound by the impl block or by an input of the fn.
+   * a named lifetime in a return type is bound by the impl block or by an input of the fn;
+   * a handle that holds the unique borrow (its first lifetime parameter) hands out through `&self`
+     only views that re-borrow the handle itself: their type does not name that lifetime (otherwise
+     the view outlives the `&self` borrow and the handle -- a Drain, say -- can be advanced or
+     dropped under it).
 
    The quantifier is over every generated signature (a finite list: enumeration by vm_compute lifted
    with forallb_forall); the callers are rustc's business (tools/c16_probes.py probes that side). *)
@@ -40,6 +44,13 @@ Theorem C16b_return_lifetimes_are_bound :
   (In l (s_fn_lts g) \/ In l (s_impl_lts g)) /\ (In l (s_fn_lts g) -> In l (s_in_lts g)).
 Proof. exact return_lifetimes_bound. Qed.
 
+Theorem C16b_shared_view_of_unique_handle_reborrows :
+  forall g l, In g gen_sigs ->
+  unique_handle (s_owner g) = true -> s_recv g = RecvRef -> hd_error (s_impl_lts g) = Some l ->
+  ~ In l (s_ret_lts g).
+Proof. exact shared_view_of_unique_handle_reborrows. Qed.
+
 Print Assumptions C16b_unique_access_needs_unique_borrow.
 Print Assumptions C16b_borrowing_result_has_a_source.
 Print Assumptions C16b_return_lifetimes_are_bound.
+Print Assumptions C16b_shared_view_of_unique_handle_reborrows.
